@@ -164,7 +164,8 @@ def run_cases(prop, lines, tag="cases", shards=16, limit_ms=10000):
     if n == 0:
         return []
     k = max(1, min(shards, n // 500 + 1))
-    chunks = [lines[i * n // k:(i + 1) * n // k] for i in range(k)]
+    # round-robin: expensive cases that a generator emits next to each other are spread over all shards
+    chunks = [lines[i::k] for i in range(k)]
     files = []
     for i, ch in enumerate(chunks):
         fp = os.path.join(d, "%s.%d.txt" % (tag, i))
@@ -176,16 +177,16 @@ def run_cases(prop, lines, tag="cases", shards=16, limit_ms=10000):
         df = [ex.submit(_run_driver, fp, len(ch)) for fp, ch in zip(files, chunks)]
         hs = [f.result() for f in hf]
         ds = [f.result() for f in df]
-    res = []
-    for ch, h, dr in zip(chunks, hs, ds):
-        for c, i, m in zip(ch, h, dr):
+    res = [None] * n
+    for si, (ch, h, dr) in enumerate(zip(chunks, hs, ds)):
+        for j, (c, i, m) in enumerate(zip(ch, h, dr)):
             parts = m.split("\t")
             while len(parts) < 3:
                 parts.append("-")
             model, spec, wf = parts[0], parts[1], parts[2]
             if spec == "=":
                 spec = model
-            res.append({"case": c, "impl": i, "model": model, "spec": spec, "wf": wf})
+            res[si + j * k] = {"case": c, "impl": i, "model": model, "spec": spec, "wf": wf}
     return res
 
 
@@ -412,7 +413,15 @@ def run_check(mod, tier, seed, replay=None):
     else:
         lines = read_corpus(prop) + list(mod.corpus())
         search_tier = "thorough" if (broken_obligations or anchors_changed) else tier
-        lines += list(mod.generate(search_tier, rng, hist))
+        gen = list(mod.generate(search_tier, rng, hist))
+        cap = int(os.environ.get("VERIF_WIDEN_CAP", "150000"))
+        if search_tier != tier and not broken_obligations and len(gen) > cap:
+            # widened only because the mirrored source changed: an even sample of the thorough stream keeps the
+            # quick command within minutes (the thorough command always runs the whole stream)
+            stepf = len(gen) / float(cap)
+            gen = [gen[int(i * stepf)] for i in range(cap)]
+            hist["widened_sample_of_thorough"] = cap
+        lines += gen
     results = run_cases(prop, lines, limit_ms=getattr(mod, "LIMIT_MS", 10000))
 
     # 5. compare
